@@ -1,9 +1,73 @@
-"""C18 (Engine B part) - recovery from the write-ahead log reproduces the original ids."""
+"""C18 (Engine B part) - recovery from the write-ahead log reproduces the original ids; rows read from a segment
+carry their stored id."""
+import re
+
+import z3
+
+from .. import oblig, sym
 from . import walspec
 from ._util import pick
+from .flushspec import Builder
 
 FILTERS = []
 
 
+def stored_ids(ctx):
+    """evaluate_zones_with_limit replaces a row's id by a synthetic one (zone << 32 | row) when the zone has no
+    event_id column; the test for "no column" has to honour typed columns, whose string ranges are always empty"""
+    b = Builder(ctx, "filter-condition_evaluator-{impl#0}-evaluate_zones_with_limit.", "ConditionEvaluator::evaluate_zones_with_limit", {})
+    E, q = b.E, ctx.q
+    r = b.mk("B-2", "rows materialised from a segment keep their stored event id: the per-zone flag that switches to synthetic ids "
+                    "(`event_id` column missing / empty) is computed from the column's row count (ColumnValues::len, which honours typed "
+                    "columns) - or from an emptiness test that does - never from the string ranges alone, which are empty for every typed "
+                    "column; synthetic ids ignore the segment and collide across segments")
+    out = [b.results["B-2"]]
+    if not r:
+        return out
+    gets = [e for e in oblig.events(E, r"HashMap(::<.*>)?::get(::<.*>)?$") if e.args and "event_id" in " ".join(sym.describe(a) for a in e.args)]
+    if not oblig.need_anchor(r, gets, 'zone.values.get("event_id")'):
+        return out
+    # the closure passed to Option::map on that lookup decides "missing"
+    bodies = [f for f in ctx.find("filter-condition_evaluator-{impl#0}-evaluate_zones_with_limit-{closure#")]
+    decided = None
+    for f in bodies:
+        txt = open(f, errors="replace").read()
+        if "ColumnValues" not in txt[:3000]:
+            continue
+        if re.search(r"ColumnValues::len\b", txt):
+            decided = ("len", f)
+            break
+        if re.search(r"ColumnValues::is_empty\b", txt):
+            decided = ("is_empty", f)
+            break
+    if decided is None:
+        # the test may be inline
+        for e in E.events:
+            if re.search(r"ColumnValues::len$", e.func):
+                decided = ("len", None)
+            elif re.search(r"ColumnValues::is_empty$", e.func) and decided is None:
+                decided = ("is_empty", None)
+    if decided is None:
+        r.status = "inconclusive"
+        r.notes.append("the emptiness test on the event_id column was not found")
+        return out
+    r.nontrivial = True
+    if decided[0] == "is_empty":
+        # acceptable only if ColumnValues::is_empty itself looks at the typed views
+        honours = False
+        for f in ctx.find("column-column_values-{impl#0}-is_empty."):
+            txt = open(f, errors="replace").read()
+            fields = ctx.structs._fields("ColumnValues") or []
+            idx = [i for i, n in enumerate(fields) if n.startswith("typed_")]
+            honours = any(re.search(r"\(\*_1\)\.%d\b" % i, txt) for i in idx) or "ColumnValues::len" in txt
+        if not honours:
+            r.status = "violated"
+            r.witness = {"what": "the `event_id column missing` flag is ColumnValues::is_empty(), which only looks at the string ranges: for the typed "
+                                 "u64 id column every segment writes it is always true, so every row read from a segment gets the synthetic id "
+                                 "zone << 32 | row - equal for the same position in two segments, and the response de-duplication drops distinct events",
+                         "span": "src/engine/core/filter/condition_evaluator.rs", "call": "ColumnValues::is_empty", "path": [], "model": {}}
+    return out
+
+
 def obligations(ctx):
-    return pick(walspec.recovery(ctx), [("B-1", "replay")])
+    return pick(walspec.recovery(ctx), [("B-1", "replay")]) + stored_ids(ctx)
